@@ -4,3 +4,5 @@ import HttpcoreModel.Backoff
 import HttpcoreModel.Url
 import HttpcoreModel.Drv.C19
 import HttpcoreModel.Drv.C20
+import HttpcoreModel.Extractor
+import HttpcoreModel.Drv.H1
